@@ -434,12 +434,13 @@ def main(spec, argv):
             # the search compares the REAL code with the Spec / monitors and registers violations that
             # come with a concrete failing input; it returns the broken items it could not explain
             unexplained = spec.search(run, broken)
-            for b in unexplained:
-                run.violation(f"{run.prop}:unverified:{b['kind']}:{b['name']}",
-                              f"{b['kind']} no longer checks: {b['name']}: {b.get('detail', '')[:300]}",
-                              {"broken": {k: v for k, v in b.items() if k != "cases"},
-                               "cases": b.get("cases", [])[:3],
-                               "note": "no failing input found by the search"},
+            if unexplained:
+                names = "; ".join(f"{b['kind']} {b['name']}" for b in unexplained)
+                run.violation(f"{run.prop}:unverified:" + "|".join(sorted(b['name'] for b in unexplained))[:200],
+                              f"no longer checks: {names[:600]}",
+                              {"broken": [{k: v for k, v in b.items() if k != "cases"} for b in unexplained],
+                               "cases": [c for b in unexplained for c in b.get("cases", [])[:3]][:6],
+                               "note": "no failing input found by the search; the items listed under 'broken' are the theorems / correspondences that no longer check"},
                               no_input=True)
         return run.finish()
     except Infra as e:
